@@ -42,8 +42,9 @@ func newPoolWorld(maxV1, maxV2 int) *poolWorld {
 			t = newV2(w.tag(), nil, w.parent())
 		}
 		sub := []types.V2Transaction{t}
-		if len(t.SiacoinInputs) > 0 && t.SiacoinInputs[0].Parent.StateElement.LeafIndex == types.UnassignedLeafIndex {
-			sub = []types.V2Transaction{w.v2[i-1], t} // a child travels with its parent
+		// a child travels with its unconfirmed ancestors
+		for j := i - 1; j >= 0 && len(sub[0].SiacoinInputs) > 0 && sub[0].SiacoinInputs[0].Parent.StateElement.LeafIndex == types.UnassignedLeafIndex; j-- {
+			sub = append([]types.V2Transaction{w.v2[j]}, sub...)
 		}
 		known, err := w.c.m.AddV2PoolTransactions(w.c.m.Tip(), sub)
 		if err != nil {
